@@ -155,7 +155,12 @@ def gw2(P, C):
         unit = lambda x: x is not None and f.render(x).replace(" ", "") in ("{1,0}", "{1.,0.}", "{1.0,0.0}")
         st = [x for x in f.walk() if ts.assign_parts(f, x) and f.alpha(x)[0].replace(" ", "") == "(v0[0]=$6)" and f.alpha(x)[1][0] == s2]
         others = [x for x in f.walk() if ts.assign_parts(f, x) and f.k(f.strip(ts.assign_parts(f, x)[0])) == "ArraySubscriptExpr" and x not in st]
-        ok2 = unit(i1) and unit(i2) and len(st) == 1 and not others and f.nodes[st[0]]["loc"] < f.nodes[ad[0][1]]["loc"]
+        # the second scale is {scale, 0}: either initialised {1,0} and its real part set to the smoothing strength before the sum,
+        # or initialised {scale, 0} directly (the parameter is not assigned in this function)
+        direct = i2 is not None and f.alpha(i2)[0].replace(" ", "") in ("{$6,0}", "{$6,0.0}", "{$6,0.}") and \
+            not any(ts.assign_parts(f, x) and f.k(f.strip(ts.assign_parts(f, x)[0])) == "DeclRefExpr" and
+                    f.nodes[f.strip(ts.assign_parts(f, x)[0])]["decl"].get("id") == f.params[6]["id"] for x in f.walk())
+        ok2 = unit(i1) and not others and ((unit(i2) and len(st) == 1 and f.nodes[st[0]]["loc"] < f.nodes[ad[0][1]]["loc"]) or (direct and not st))
     C.ob("GW-2", "add_penalty_term", "scaled-sum", ok2, f.loc(ad[0][0]) if ad else f.where(),
          "penalty = 1*penalty + scale*chunk (first scale {1,0} untouched, second scale's real part set to the smoothing strength before the sum)")
     ifs = [x for x in f.walk() if f.k(x) == "IfStmt"]
